@@ -71,6 +71,24 @@ def run(ck, prog, ctx):
         for m, cb, t in fcs:
             pol, ct = bool_polarity(cb, pvn, lambda c: bool(re.search(prx, c.name)))
             if pol is None:
+                # the predicate may ask a private helper (`!self.is_outdated(id)`): the term-state accessors that helper consults are the basis of
+                # the decision.  "Keep iff not obsolete" reads the obsolete flag and nothing else of the term; a helper that also looks at the
+                # replacement (or any other state of the term) removes members that are not obsolete.
+                extra_ = None
+                if what == "obsolete":
+                    from engines import private_scope as _ps13
+                    for hb_ in [y for y in _ps13(prog, cb) if y.kind in ("Fn", "AssocFn") and not (y.exported or y.reachable) and y.locals[0]["s"] == "bool"]:
+                        accs_ = set()
+                        for fb_ in prog.family(hb_):
+                            for _, t_ in fb_.calls():
+                                r_ = t_.callee.res or ""
+                                if re.search(r"^term::internal::HpoTermInternal::\w+$|^term::hpoterm::HpoTerm::<'.*>::\w+$", r_) and len(t_.args) == 1:
+                                    accs_.add(r_.rsplit("::", 1)[-1])
+                        if accs_ & {"obsolete", "is_obsolete"} and accs_ - {"obsolete", "is_obsolete", "id"}:
+                            extra_ = (hb_, sorted(accs_ - {"obsolete", "is_obsolete", "id"}))
+                if extra_ is not None:
+                    ck.ob("SELECT", name + "/polarity", False, "%s decides through %s, which consults `%s` of the term besides its obsolete flag: members that are not flagged obsolete are removed as well" % (name, extra_[0].short, "`, `".join(extra_[1])), where=extra_[0].where())
+                    continue
                 ck.undecided("SELECT", name + "/polarity", "filter predicate of %s is not a plain (negated) call of %s" % (name, what), where=cb.where())
             else:
                 ck.ob("SELECT", name + "/polarity", pol == -1, "%s keeps a member iff %s%s" % (name, "!" if pol == -1 else "", what), where=cb.where())
